@@ -38,8 +38,10 @@ func (o *ObjectRangeRequest) Range(size int64) (*ObjectRange, error) {
 		start = o.Start
 		end := o.End
 
-		if o.End == RangeNoEnd {
-			// If no end is specified, range extends to end of the file.
+		if o.End == RangeNoEnd || end >= size {
+			// If no end is specified, range extends to end of the file. An end
+			// at or beyond the end of the file is clipped here, before the
+			// length is computed, so that 'end - start + 1' cannot overflow.
 			length = size - start
 		} else {
 			length = end - start + 1
